@@ -271,7 +271,14 @@ fn mismatch_class(d: &[(u8, u8, u8)], e: &[(u8, u8, u8)]) -> &'static str {
     }
 }
 
+/// `execute_inner` under a guard: a panic of the code under test *outside* a client call (while the
+/// harness computes its one-shot reference for the input, say) is a violation like any other panic,
+/// not a crash of the harness.
 pub fn execute(t: &Trace, stats: &mut Stats, record: bool) -> Outcome {
+    guarded_execute(execute_inner, t, stats, record)
+}
+
+fn execute_inner(t: &Trace, stats: &mut Stats, record: bool) -> Outcome {
     let console = SimConsole::new(t.faults.clone(), record);
     let h = console.clone();
     if t.faults.is_empty() {
